@@ -1,12 +1,12 @@
 #!/bin/bash
-# usage: seedtest.sh <worktree> <ids...> : verify the seed in <worktree>, run the given checks against it on /repo, restore /repo
+# usage: seedtest.sh <worktree> <ids...> : verify the seed in <worktree> (demo exits 1 with it, 0 without; suite passes),
+# then run the given checks against that worktree (BLUEBELL_REPO) - /repo itself is not touched - and restore evidence/
 wt=$1; shift
-cd $wt && git diff -- bluebell > /tmp/seed.diff
+cd $wt && git diff -- bluebell README.md > /tmp/seed.diff
 PYTHONPATH=$wt /venv/bin/python seed_demo.py >/dev/null 2>&1; echo "demo with change rc=$?"
-git apply -R /tmp/seed.diff && (PYTHONPATH=$wt /venv/bin/python seed_demo.py | tail -1); git apply /tmp/seed.diff
+git apply -R /tmp/seed.diff && (PYTHONPATH=$wt /venv/bin/python seed_demo.py >/dev/null 2>&1; echo "demo without change rc=$?"); git apply /tmp/seed.diff
 PYTHONPATH=$wt /venv/bin/python -m pytest -q -p no:cacheprovider 2>&1 | tail -1
-cd /verif && git -C /repo apply /tmp/seed.diff || exit 1
-for id in "$@"; do ./check $id | cut -c1-250 | grep -E "VIOLATION|^OK|^FAIL|broken"; done
-git -C /repo checkout -- .
+cd /verif
+for id in "$@"; do BLUEBELL_REPO=$wt ./check $id | cut -c1-250 | grep -E "VIOLATION|^OK|^FAIL|broken"; done
 git -C /verif checkout -- evidence 2>/dev/null
-git -C /repo status --short | grep -v egg-info; true
+true
